@@ -11,7 +11,8 @@
    PARTIAL (named in meta/C17.json): threading.RLock/Condition are modelled as a Mesa monitor (C16); the calls
    are atomic-section abstractions whose classification (mutating / reading / stateless) is validated
    dynamically, and memoising reads inside read sections (RoleManager._get_role entries, DomainManager.rm_map,
-   the `g` closures stored by enforce) are ASSUMED to commute. *)
+   the `g` closures stored by enforce) are ASSUMED to commute — the check's one-preemption stratum shows that they do
+   not always (known finding C17/readers-race-on-memoising-caches; model-level shape: C17_unguarded_refuted). *)
 From Coq Require Import List Bool NArith.
 From PyCasbin Require Import Base SyncedBase Synced SyncedProofs SyncedTie.
 From PyCasbinGen Require Import SyncedGen.
@@ -149,6 +150,15 @@ Example C17_undisciplined_dirty_read :
     (fexec (finit [[ex_bad]; [ex_r]]) [EInvoke 0 0; EInvoke 1 0; EEnter 0; EMicro 0; EEnter 1; EMicro 1; EExit 1 0])
   = Some [[0]].
 Proof. vm_compute. reflexivity. Qed.
+
+(* ... stated as a refutation of the UNGUARDED statement (this is the model-level shape of the listed finding
+   C17/readers-race-on-memoising-caches: a "reading" call that in fact writes a cache inside a read section) *)
+Theorem C17_unguarded_refuted :
+  exists tr C, fexec (finit [[ex_bad]; [ex_r]]) tr = Some C
+    /\ In [0] (map (fun e => e_ret e) (log C))
+    /\ (forall cs, In cs [[ex_bad; ex_r]; [ex_r; ex_bad]; [ex_r]; [ex_bad]; []] -> ~ In [0] (snd (fseq_run [] cs))).
+Proof. exact unguarded_refuted. Qed.
+Print Assumptions C17_unguarded_refuted.
 
 (* the table is not empty and the discipline is not vacuous: add_policy is a delegating wrapper under the write
    lock, enforce one under the read lock *)
